@@ -783,6 +783,10 @@ pub fn drive_main<P: Property>(p: &P, args: &Args) -> i32 {
                     *stats.known_hits.entry(best_o.sig.clone()).or_insert(0) += 1;
                     continue;
                 }
+                if seen_viol_sigs.contains(&best_o.sig) {
+                    seen_viol_sigs.insert(o.sig.clone());
+                    continue;
+                }
                 seen_viol_sigs.insert(o.sig.clone());
                 seen_viol_sigs.insert(best_o.sig.clone());
                 let path = write_replay(p, &best_case, &best_o, args.seed, "shrunk failing case");
